@@ -528,7 +528,7 @@ func RRuneCut(c *core.Ctx) {
 				if cal == cpl {
 					uses, pos = true, call.Pos()
 				}
-				if cal.Pkg != nil && cal.Pkg.Pkg.Path() == "unicode/utf8" && (cal.Name() == "RuneStart" || strings.HasPrefix(cal.Name(), "DecodeLastRune") || cal.Name() == "Valid" || cal.Name() == "ValidString") {
+				if cal.Pkg != nil && cal.Pkg.Pkg.Path() == "unicode/utf8" && (core.BaseName(cal) == "RuneStart" || strings.HasPrefix(core.BaseName(cal), "DecodeLastRune") || core.BaseName(cal) == "Valid" || core.BaseName(cal) == "ValidString") {
 					aligns = true
 				}
 				if core.InModule(cal) && cal != cpl {
@@ -536,7 +536,7 @@ func RRuneCut(c *core.Ctx) {
 					for _, b2 := range cal.Blocks {
 						for _, i2 := range b2.Instrs {
 							if c2, ok := i2.(*ssa.Call); ok {
-								if k := c2.Call.StaticCallee(); k != nil && k.Pkg != nil && k.Pkg.Pkg.Path() == "unicode/utf8" && k.Name() == "RuneStart" {
+								if k := c2.Call.StaticCallee(); k != nil && k.Pkg != nil && k.Pkg.Pkg.Path() == "unicode/utf8" && core.BaseName(k) == "RuneStart" {
 									aligns = true
 								}
 							}
